@@ -1,7 +1,7 @@
 (* Model of the legacy NetworkGrid of mesa/space.py (placement on graph nodes), statement by statement:
      place_agent   : self.G.nodes[node_id]["agent"].append(agent); agent.pos = node_id       (KeyError for an unknown node)
      remove_agent  : node_id = agent.pos; self.G.nodes[node_id]["agent"].remove(agent); agent.pos = None
-     move_agent    : self.remove_agent(agent); self.place_agent(agent, node_id)              (NOT atomic for an unknown node)
+     move_agent    : KeyError for an unknown node FIRST (fixes/C08-4); self.remove_agent(agent); self.place_agent(agent, node_id)
      is_cell_empty, get_cell_list_contents / iter_cell_list_contents, get_all_cell_contents, agents
    The graph's edges play no role here (neighbourhoods are C09).  Definitions only. *)
 From Coq Require Import ZArith List Bool.
@@ -43,8 +43,10 @@ Definition nbind (x : nstate * res) (f : nstate -> nstate * res) : nstate * res 
   | (s, r) => (s, r)
   end.
 
+(* as repaired by fixes/C08-4:  if node_id not in self.G.nodes: raise KeyError(node_id)  comes first *)
 Definition nmove (nodes : list Z) (s : nstate) (a : agent) (n : Z) : nstate * res :=
-  nbind (nremove nodes s a) (fun s1 => nplace nodes s1 a n).
+  if is_node nodes n then nbind (nremove nodes s a) (fun s1 => nplace nodes s1 a n)
+  else (s, Err E_KEY).
 
 (* iter_cell_list_contents: chain of the agent lists of the non-empty nodes, in the order given *)
 Definition ncontents (s : nstate) (l : list Z) : list agent :=
